@@ -225,6 +225,11 @@ class C19(Prop):
             if "exc" in pi:
                 if pi["exc"] != "ValueError":
                     bad("inventory failure surfaces as %s, not ValueError" % pi["exc"])
+                # ... carrying the underlying message: the reason some failing node gives when rendered alone
+                reasons = [(rust.get("nodes", {}).get(n) or {}).get("err") for n in rust.get("nodes", {})]
+                reasons = [m.replace("<ROOT>", "") for m in reasons if m]
+                if reasons and not any(m in pi["msg"].replace("<ROOT>", "") for m in reasons):
+                    bad("inventory failure (%s) does not carry the underlying message of any failing node (%s)" % (pi["msg"][:120], reasons[0][:80]))
                 if "err" not in mi:
                     why.append("inventory fails in python, model renders it")
             elif "err" in mi:
